@@ -480,7 +480,9 @@ func vfRunC07Enum(ctx *vfCtx, c vfCaseC07) {
 }
 
 func TestVerifC07(t *testing.T) {
-	t.Run("one", func(t *testing.T) { vfDriveSub(t, "one", vfProp[vfCaseC07]{ID: "C07", Gen: vfGenC07, Run: vfRunC07One}) })
+	t.Run("one", func(t *testing.T) {
+		vfDriveSub(t, "one", vfProp[vfCaseC07]{ID: "C07", Gen: vfGenC07, Run: vfRunC07One})
+	})
 	t.Run("enum", func(t *testing.T) {
 		defer vfScaleChecks(40)()
 		vfDriveSub(t, "enum", vfProp[vfCaseC07]{ID: "C07", Gen: vfGenC07Session, Run: vfRunC07Enum})
